@@ -100,7 +100,7 @@ def main():
     ap.add_argument("--tier", default="quick")
     ap.add_argument("--also", default="")
     a = ap.parse_args()
-    ids = sorted(os.listdir(os.path.join(ROOT, "seeded")))
+    ids = sorted(d for d in os.listdir(os.path.join(ROOT, "seeded")) if os.path.exists(os.path.join(ROOT, "seeded", d, "meta.json")))
     if a.only:
         ids = [i for i in ids if i in a.only.split(",")]
     also = [p for p in a.also.split(",") if p]
